@@ -58,6 +58,8 @@ struct Obs {
     tx: Vec<Vec<u8>>,
     downlinks: Vec<(u8, Vec<u8>)>,
     session: Option<String>,
+    /// accessor view: (fcnt_up, fcnt_down incl. the None / Some(0) distinction)
+    counters: (Option<u32>, Option<Option<u32>>),
 }
 
 fn run_steps(dev: &mut Dev, steps: &[Step]) -> Vec<Obs> {
@@ -69,7 +71,8 @@ fn run_steps(dev: &mut Dev, steps: &[Step]) -> Vec<Obs> {
         let downlinks = dev.take_downlinks();
         let session = dev.session_json().map(|j| serde_json::to_string(&j).unwrap());
         let stop = matches!(resp, Resp::Panic(..));
-        out.push(Obs { resp, tx, downlinks, session });
+        let counters = (dev.fcnt_up(), dev.fcnt_down());
+        out.push(Obs { resp, tx, downlinks, session, counters });
         if stop {
             break;
         }
@@ -117,7 +120,10 @@ fn history_case(front: Front, reg: Reg, rng: &mut Prng, col: &mut Collector) {
         let opts = DevOpts { rng_seed: Some(seed), ..Default::default() };
         abp_dev(front, reg, r, &opts, |sj| {
             sj["fcnt_up"] = json!(start_up);
-            sj["fcnt_down"] = json!(start_down);
+            // "no downlink yet" keeps whatever representation the crate itself produced for it
+            if let Some(d) = start_down {
+                sj["fcnt_down"] = json!(d);
+            }
             sj["adr_ack_cnt"] = json!(start_adr);
         })
         .ok()
@@ -210,6 +216,8 @@ fn history_case(front: Front, reg: Reg, rng: &mut Prng, col: &mut Collector) {
     for _ in 0..2 {
         steps.push(Step { data: vec![0xAA], port: 9, confirmed: false, script: Script::silent(), note: "tail" });
     }
+    let first_again = net.downlink(&Down { fcnt: start_down.map(|d| d.saturating_add(1)).unwrap_or(0), port: Some(5), payload: &[4], ..Default::default() });
+    steps.push(Step { data: vec![0xA9], port: 9, confirmed: false, script: Script::rx2(first_again), note: "tail-first-again" });
     let replay = net.downlink(&Down { fcnt: fdown.saturating_sub(1), port: Some(5), payload: &[5], confirmed: true, ..Default::default() });
     steps.push(Step { data: vec![0xAB], port: 9, confirmed: false, script: Script::rx1(replay), note: "tail-replay" });
     let stale = net.downlink(&Down { fcnt: fdown.saturating_sub(3), port: Some(5), payload: &[5], ..Default::default() });
@@ -220,6 +228,7 @@ fn history_case(front: Front, reg: Reg, rng: &mut Prng, col: &mut Collector) {
 
     // ---- the original's run, with the session document after every step -------------------------------
     let j0 = a.session_json().map(|j| serde_json::to_string(&j).unwrap());
+    let c0 = (a.fcnt_up(), a.fcnt_down());
     let obs_a = run_steps(&mut a, &steps);
     if let Some(Obs { resp: Resp::Panic(m, l), .. }) = obs_a.last() {
         col.violation(&format!("C20|panic|original|{}", short_loc(l)), "the original device panicked during the history", json!({"msg": m, "loc": l, "steps": steps.iter().map(|s| s.note).collect::<Vec<_>>()}));
@@ -228,6 +237,8 @@ fn history_case(front: Front, reg: Reg, rng: &mut Prng, col: &mut Collector) {
     // snapshots: before step 0 and after every step
     let mut docs: Vec<Option<String>> = vec![j0];
     docs.extend(obs_a.iter().map(|o| o.session.clone()));
+    let mut counters_at: Vec<(Option<u32>, Option<Option<u32>>)> = vec![c0];
+    counters_at.extend(obs_a.iter().map(|o| o.counters));
     let notes: Vec<&str> = steps.iter().map(|s| s.note).collect();
     for k in 0..steps.len() {
         let Some(doc) = &docs[k] else { continue };
@@ -298,6 +309,16 @@ fn history_case(front: Front, reg: Reg, rng: &mut Prng, col: &mut Collector) {
                 }
                 b2
             };
+            // field equality through the accessors (None vs Some(0) must be distinguished)
+            let got = (b.fcnt_up(), b.fcnt_down());
+            if got != counters_at[k] {
+                col.violation(
+                    &format!("C20|restored-field-differs|{}|{}", if got.0 != counters_at[k].0 { "fcnt_up" } else { "fcnt_down" }, if counters_at[k].1 == Some(Some(0)) { "Some(0)" } else if counters_at[k].1 == Some(None) { "None" } else { "other" }),
+                    "a field of the restored session differs from the original's",
+                    ctx("field", json!({"variant": variant, "original": format!("{:?}", counters_at[k]), "restored": format!("{:?}", got)})),
+                );
+                break;
+            }
             // the application restores the data rate it had
             let a_dr_at_k = {
                 // re-run a shadow of A up to k to read its data rate (A itself has moved on)
